@@ -99,12 +99,6 @@ def run_ext(ctx):
     ctx.absorb(res)
     ctx.traces_validated += res.get("traces", 0)
     stats = res.get("stats") or {}
-    if not stats.get("crash_points"):
-        raise vlib.Inconclusive("synccrash: the driver probed no crash point")
-    for need in ("crash_headers-partial", "crash_mpt-partial", "crash_mpt-complete", "crash_blocks-partial", "crash_blocks-complete",
-                 "crash_jump-j1", "crash_jump-j3", "crash_points_on_trapped_trie"):
-        if not stats.get(need):
-            raise vlib.Inconclusive("synccrash: vacuity guard - no crash point of kind %s" % need)
     # 4. TLC judges the trace
     trace = os.path.join(res["_out"], "trace.ndjson")
     events = vlib.read_ndjson(trace)
@@ -144,6 +138,13 @@ def run_ext(ctx):
     for e in events:
         kinds[e["event"]] = kinds.get(e["event"], 0) + 1
     ctx.extra["synccrash_event_kinds"] = kinds
+    if not nviol:   # vacuity guards (a failing synchronisation is a verdict, not a reason to be inconclusive)
+        if not stats.get("crash_points"):
+            raise vlib.Inconclusive("synccrash: the driver probed no crash point")
+        for need in ("crash_headers-partial", "crash_mpt-partial", "crash_mpt-complete", "crash_blocks-partial", "crash_blocks-complete",
+                     "crash_jump-j1", "crash_jump-j3", "crash_points_on_trapped_trie"):
+            if not stats.get(need):
+                raise vlib.Inconclusive("synccrash: vacuity guard - no crash point of kind %s" % need)
     # 5. binding self-test: corrupted records of a good trace must be rejected, each by its own predicate
     if not nviol:
         want = {"recover": ("claim_ok", False, "NoCorruption"), "resume": ("completed", False, "Resumable"),
